@@ -85,6 +85,23 @@ def both(sg, build_ops, fused, composed, tol, rg=None, gmode="exact", views=Fals
         except Exception as e:  # noqa: BLE001
             res.append(("raised", type(e).__name__ + ": " + str(e)[:80], None))
             continue
+        res.append(("pending", out, (T, bases)))
+    # both forward passes are done before either backward pass (a backward pass reads what ITS forward pass saved,
+    # whatever sliding-window / pooling / normalisation calls came in between)
+    try:
+        # ... including calls of the same operations on OTHER data of the same shapes (a second batch, an evaluation pass)
+        other = [sg.Tensor((t.data * -1.5 + 0.25).astype(t.data.dtype)) if t.data.dtype.kind == "f" else sg.Tensor(t.data.copy()) for t in build_ops()]
+        with repo.quiet(), np.errstate(all="ignore"), sg.no_grad():
+            fused(*other)
+            composed(*other)
+    except Exception:  # noqa: BLE001 - operands outside the domain after the perturbation: no disturbance then
+        pass
+    pend, res = res, []
+    for item in pend:
+        if item[0] == "raised":
+            res.append(item)
+            continue
+        out, (T, bases) = item[1], item[2]
         grads = None
         if out.requires_grad:
             with repo.quiet(), np.errstate(all="ignore"):
